@@ -955,6 +955,35 @@ func checkInert(c *Ctx) {
 		if ic := c.P.Func("rules", "isCosmetic"); ic != nil {
 			g.Pure[FuncName(ic)] = true
 		}
+		// role successor (round 13): when isComment is gone, the classifier NewRule hands
+		// the line to (an unexported function of the package from one string to one basic
+		// value) is read in place, and the inert condition is read off the (nil, nil) return
+		successor := c.P.Func("rules", "isComment") == nil
+		if successor {
+			var names []string
+			for _, b := range nr.Blocks {
+				for _, in := range b.Instrs {
+					call, ok := in.(*ssa.Call)
+					if !ok {
+						continue
+					}
+					f := call.Call.StaticCallee()
+					if f == nil || f.Pkg != nr.Pkg || f.Object() == nil || f.Object().Exported() || f.Name() == "isCosmetic" {
+						continue
+					}
+					sg := f.Signature
+					if sg.Recv() != nil || sg.Params().Len() != 1 || sg.Results().Len() != 1 {
+						continue
+					}
+					pb, ok1 := sg.Params().At(0).Type().Underlying().(*types.Basic)
+					_, ok2 := sg.Results().At(0).Type().Underlying().(*types.Basic)
+					if ok1 && ok2 && pb.Kind() == types.String {
+						names = append(names, FuncName(f))
+					}
+				}
+			}
+			g.Inline = inlineOnly(names...)
+		}
 		s := g.Eval(nr)
 		u := g.U
 		ps := g.ParamExprs(nr)
@@ -964,6 +993,28 @@ func checkInert(c *Ctx) {
 		for _, at := range u.atoms {
 			if at.Op == "call" && strings.HasSuffix(at.Aux, "rules.isComment") && at.Args[0].key == trimmed.key {
 				comment = u.Atom(at)
+			}
+		}
+		if successor {
+			var r0 Ref = False
+			for _, r := range s.Rets {
+				if r.Vals[0].IsNil() && r.Vals[1].IsNil() {
+					r0 = u.bdd.Or(r0, r.Cond)
+				}
+			}
+			onLine := r0 != False && r0 != empty && u.bdd.Implies(empty, r0)
+			for _, at := range u.AtomsOf(r0) {
+				if at.Op == "call" && strings.HasSuffix(at.Aux, "rules.isCosmetic") {
+					onLine = false
+				}
+				// an atom speaks of the trimmed line, or of no parameter at all (a closure over the cell the line is kept in)
+				if u.Mentions(at, func(e *E) bool { return e == ps[1] }) || !u.Mentions(at, func(e *E) bool { return e.key == trimmed.key }) && u.Mentions(at, func(e *E) bool { return e == ps[0] }) {
+					onLine = false
+				}
+			}
+			if onLine {
+				// blank lines are inert, and so is a class of lines decided from the trimmed line alone
+				comment = r0
 			}
 		}
 		inert := u.bdd.Or(empty, comment)
@@ -1024,7 +1075,7 @@ func checkInert(c *Ctx) {
 		}
 		okNil := false
 		for _, r := range s.Rets {
-			if r.Vals[0].IsNil() && r.Vals[1].IsNil() && r.Cond == inert {
+			if r.Vals[0].IsNil() && r.Vals[1].IsNil() && (r.Cond == inert || successor && comment != False) {
 				okNil = true
 			}
 		}
